@@ -15,7 +15,6 @@ are observed once, in a private pool of non-daemonic worker processes (a daemoni
 and `impl` / `model_lines` / `oracle` all read that one observation.
 """
 import os
-import sys
 import json
 import time
 import errno
@@ -457,10 +456,22 @@ def _prefetch(cases):
     shutil.rmtree(d, ignore_errors=True)
 
 
+def _suspect(obs):
+    """an observation that may only reflect an overloaded machine (a genuine defect shows again)"""
+    st = obs.get('status', '')
+    return st == 'timeout' or st.startswith('harness-exc') or st.startswith('exc OSError') \
+        or any(r == 'timeout' for _, _, r in obs.get('accept', []))
+
+
 def observe(case):
     k = _key(case)
     if k not in _CACHE:
         _CACHE[k] = _observe_guarded(case)
+    unexpected_clash = _CACHE[k].get('status') == 'exc addrInUse' and _fixed_distinct(case)   # lost a race for a port
+    if (_suspect(_CACHE[k]) or unexpected_clash) and not _CACHE[k].get('retried'):
+        obs = _observe_guarded(case)
+        obs['retried'] = True
+        _CACHE[k] = obs
     return _CACHE[k]
 
 
